@@ -171,6 +171,7 @@ type World struct {
 	httpSizes   []int
 	okOutcomes  int
 	scriptFired map[int]bool
+	c08         *c08State
 	pendingJump time.Duration
 	outcomeQ    []outcomeRec
 	onHookEvent func(name string, kv ...any)
